@@ -150,7 +150,7 @@ class Census:
                     # a - b underflows when b > a
                     if c.bound == 0:
                         return self._auto(s, "subtracting zero")
-                    if any(l is not None and T.guarded(b, s.bb, l) for l in locs):
+                    if any(self.G(b, s.bb, l, v) for l, v in zip(locs, vals) if l is not None or v.g):
                         return self._auto(s, "operands compared before the subtraction (dominating guard)")
                     return self._open(s, "Sub of %s and %s can underflow" % (a, c), tainted)
                 return self._open(s, "arithmetic %s" % kind, tainted)
